@@ -221,11 +221,11 @@ Qed.
 
 (* ---- coercions agree with the stored content ---- *)
 Lemma coercions_agree :
-  (forall n, get_uint64 (set_number (SUInt n)) = n /\ get_double_q (set_number (SUInt n)) = (4 * Z.of_N n)%Z
+  (forall n, get_uint64 (set_number (SUInt n)) = n /\ get_double_q (set_number (SUInt n)) = (real_den * Z.of_N n)%Z
              /\ set_bool (SUInt n) = Some (0 <? n))
   /\ (forall z, get_int64 (set_number (SInt z)) = z /\ get_uint64 (set_number (SInt z)) = wrap_u64 z
-                /\ get_double_q (set_number (SInt z)) = (4 * z)%Z /\ set_bool (SInt z) = Some (Z.ltb 0 z))
-  /\ (forall q, get_double_q (set_number (SReal q)) = q /\ get_int64 (set_number (SReal q)) = Z.quot q 4
+                /\ get_double_q (set_number (SInt z)) = (real_den * z)%Z /\ set_bool (SInt z) = Some (Z.ltb 0 z))
+  /\ (forall q, get_double_q (set_number (SReal q)) = q /\ get_int64 (set_number (SReal q)) = Z.quot q real_den
                 /\ set_bool (SReal q) = Some (Z.ltb 0 q))
   /\ (set_number STrue = NNat 1 /\ set_number SFalse = NNat 0 /\ set_number SNull = NNat 0
       /\ set_bool STrue = Some true /\ set_bool SFalse = Some false /\ set_bool SNull = Some false)
